@@ -121,7 +121,7 @@ theorem create_upload_safe_tree (bs : Bytes) (B : Nat) (hB : 16 * bs.length ≤ 
   rw [show Guards.tree = Guards.all from rfl, createUpload_eq_ggufLayers]
   exact ggufLayers_safe bs B hB maxSeek
 
-/-- `general.architecture` stored as a uint32 in an otherwise well-formed 53-byte file -/
+/-- `general.architecture` stored as a uint32 in an otherwise well-formed 60-byte file -/
 def wArchType : Bytes :=
   [71, 71, 85, 70, 3, 0, 0, 0, 0, 0, 0, 0, 0, 0, 0, 0, 1, 0, 0, 0, 0, 0, 0, 0, 20, 0, 0, 0, 0, 0, 0, 0] ++
   bytesOf "general.architecture" ++ [4, 0, 0, 0, 7, 0, 0, 0]
